@@ -22,13 +22,18 @@
 (***************************************************************************)
 EXTENDS OciUnifyConc, Json, IOUtils, TraceHdr
 
-VARIABLE l
+VARIABLES l,
+          clen      \* clen[i]: how many bytes the reader member i hands out holds (0, 1 or 4): a
+                    \* concretisation of the run, outside the model (the winner's context is live
+                    \* from the return until Close whatever the content is); only the byte counts
+                    \* of the caller's reads are judged with it
 Trace == ndJsonDeserialize(IOEnv.TRACE_FILE)
 
 Fn(s) == [i \in M |-> s[i + 1]]       \* JSON array -> function on {0, 1}
 B2I(b) == IF b THEN 1 ELSE 0
 
-TInit == Init /\ l = 2
+TInit == Init /\ l = 2 /\ clen = [i \in M |-> 0]
+Min(a, b) == IF a < b THEN a ELSE b
 
 ResetStep(e) ==
   /\ out' = Fn(e.out) /\ mode' = Fn(e.mode) /\ style' = e.style
@@ -84,7 +89,10 @@ RetObs(e) ==
 ReadObs(e) ==
   /\ ~readerClosed /\ Winner # -1
   /\ readState = (IF e.kind = "read" THEN "eof" ELSE "part")
-  /\ ~e.rderr /\ e.n = (IF e.kind = "read" THEN (IF e.partbefore THEN 3 ELSE 4) ELSE 1)
+  /\ ~e.rderr
+  /\ LET len == clen[Winner]
+         piece == Min(1, len) IN
+     e.n = (IF e.kind = "read" THEN (IF e.partbefore THEN len - piece ELSE len) ELSE piece)
   /\ e.closes[Winner + 1] = 0 /\ ~closed[Winner]
   /\ e.ctxdone[Winner + 1] = CtxDone(Winner)
 \* right after the caller's Close: the member reader was closed once; its error, if it gave
@@ -112,6 +120,7 @@ FinalObs(e) ==
 TNext ==
   /\ l <= Len(Trace)
   /\ l' = l + 1
+  /\ clen' = IF Trace[l].op = "reset" THEN Fn(Trace[l].clen) ELSE clen
   /\ LET e == Trace[l] IN
      CASE e.op = "reset" -> ResetStep(e)
        [] e.op = "act" -> Act(e.a)
@@ -121,7 +130,7 @@ TNext ==
        [] e.op = "readobs" -> ReadObs(e) /\ UNCHANGED vars
        [] e.op = "final" -> FinalObs(e) /\ UNCHANGED vars
        [] OTHER -> FALSE
-TSpec == TInit /\ [][TNext]_<<vars, l>>
+TSpec == TInit /\ [][TNext]_<<vars, l, clen>>
 
 Accepted == TLCGet("stats").diameter = Len(Trace)
 ==========================================================================
